@@ -52,7 +52,7 @@ def render(ev):
     if t == "noise":
         return ev["line"]
     if t == "reload":
-        return "(SIGUSR1 reload with services %s)" % (ev["services"],)
+        return "(SIGUSR1 reload with services %s%s)" % (ev["services"], (" rules %s" % (ev["rules"],)) if ev.get("rules") is not None else "")
     raise ValueError(t)
 
 
@@ -224,9 +224,11 @@ class Session(object):
         line = render(ev)
         try:
             if ev["t"] == "reload":
-                newcfg = Config([tuple(x) for x in ev["services"]], self.config.timeout, self.config.rules, self.config.use_class)
+                newcfg = Config([tuple(x) for x in ev["services"]], self.config.timeout,
+                                ev["rules"] if ev.get("rules") is not None else self.config.rules, self.config.use_class)
                 out = self.d.reload(newcfg.text(self.d.build["moddir"]))
                 out = [l for l in out if not l.startswith("#verif")]
+                self.config = newcfg
             else:
                 out = self.d.step(line)
         except (daemon.Died, daemon.Hang):
